@@ -365,11 +365,33 @@ type muxRun struct {
 	err    error
 	dirty  bool // Assemble returned an error after writing bytes
 	nframe int
+	// caller-side observations of the hand-over flavours (see runRealMux)
+	optsMutated string // AddFrame changed the caller's FrameOptions
+	blobsNote   string // the file follows later changes of a handed-over byte slice (retention; not documented either way)
 }
 
-func runRealMux(ops []muxOp) muxRun {
+// runRealMux drives mux.Muxer. flav is the CALLER's way of handing things over (the shadow and the Lean model have
+// value semantics, so every flavour must give the bytes of the plain one):
+//
+//	""          a fresh &FrameOptions literal per AddFrame, nothing touched afterwards
+//	"shared"    ONE FrameOptions variable, overwritten before every AddFrame
+//	"scribble"  a fresh struct per AddFrame, overwritten with other values right after AddFrame returns
+//	"sharedptr" consecutive AF ops with equal option values are passed the SAME pointer (then DU / DM on one of them
+//	            must not reach the other)
+//	"blobs"     frame data and metadata blobs are handed over as private copies that are overwritten afterwards
+//	            (observation only: retention of byte slices is not documented either way)
+func runRealMux(ops []muxOp, flav string) muxRun {
 	m := mux.NewMuxer()
 	var bits strings.Builder
+	var handed [][]byte
+	own := func(b []byte) []byte {
+		if flav != "blobs" || len(b) == 0 {
+			return b
+		}
+		c := append([]byte(nil), b...)
+		handed = append(handed, c)
+		return c
+	}
 	blob := func(o muxOp) []byte {
 		if o.isNil {
 			return nil
@@ -377,16 +399,39 @@ func runRealMux(ops []muxOp) muxRun {
 		if o.data == nil {
 			return []byte{}
 		}
-		return o.data
+		return own(o.data)
 	}
+	mutated := ""
+	var shared mux.FrameOptions
+	var lastPtr *mux.FrameOptions
+	var lastVal mux.FrameOptions
 	for _, o := range ops {
 		var err error
 		switch o.kind {
 		case "AF":
-			err = m.AddFrame(o.data, &mux.FrameOptions{Duration: o.a, OffsetX: o.ox, OffsetY: o.oy,
-				BlendMode: mux.BlendMode(o.bl), DisposeMode: mux.DisposeMode(o.dm)})
+			want := mux.FrameOptions{Duration: o.a, OffsetX: o.ox, OffsetY: o.oy, BlendMode: mux.BlendMode(o.bl), DisposeMode: mux.DisposeMode(o.dm)}
+			var p *mux.FrameOptions
+			switch {
+			case flav == "shared":
+				shared = want
+				p = &shared
+			case flav == "sharedptr" && lastPtr != nil && lastVal == want:
+				p = lastPtr
+			default:
+				v := want
+				p = &v
+			}
+			err = m.AddFrame(own(o.data), p)
+			if *p != want && mutated == "" {
+				mutated = fmt.Sprintf("AddFrame was given %+v and left the caller's struct as %+v", want, *p)
+			}
+			lastPtr, lastVal = p, want
+			if flav == "scribble" {
+				*p = mux.FrameOptions{Duration: 777, OffsetX: 8, OffsetY: 6, BlendMode: mux.BlendMode(1 - o.bl&1), DisposeMode: mux.DisposeMode(1 - o.dm&1)}
+				lastPtr = nil
+			}
 		case "AF0":
-			err = m.AddFrame(o.data, nil)
+			err = m.AddFrame(own(o.data), nil)
 		case "DM":
 			m.SetFrameDisposeMode(o.a, mux.DisposeMode(o.b))
 		case "DU":
@@ -412,6 +457,11 @@ func runRealMux(ops []muxOp) muxRun {
 			bits.WriteByte('0')
 		}
 	}
+	for _, h := range handed { // the caller reuses its buffers
+		for i := range h {
+			h[i] ^= 0x5a
+		}
+	}
 	e := bits.String()
 	if e == "" {
 		e = "-"
@@ -419,7 +469,7 @@ func runRealMux(ops []muxOp) muxRun {
 	var buf bytes.Buffer
 	err := m.Assemble(&buf)
 	tail := fmt.Sprintf(" n=%d e=%s", m.NumFrames(), e)
-	r := muxRun{out: buf.Bytes(), err: err, nframe: m.NumFrames()}
+	r := muxRun{out: buf.Bytes(), err: err, nframe: m.NumFrames(), optsMutated: mutated}
 	if err != nil {
 		cls := "other"
 		switch {
@@ -742,6 +792,151 @@ func exhaustiveMuxOps(p *muxPool) [][]muxOp {
 	return out
 }
 
+// canvasRelations: explicit canvases as a function of the frame (fw, fh): equal, one dimension equal and the other
+// larger by d, both larger, too small by one in one dimension.
+func canvasRelations(fw, fh int) (rel []string, cs [][2]int) {
+	add := func(name string, w, h int) {
+		rel = append(rel, name)
+		cs = append(cs, [2]int{w, h})
+	}
+	add("equal", fw, fh)
+	for _, d := range []int{1, 2, 16} {
+		add(fmt.Sprintf("same-w,h+%d", d), fw, fh+d)
+		add(fmt.Sprintf("w+%d,same-h", d), fw+d, fh)
+		add(fmt.Sprintf("w+%d,h+%d", d, d), fw+d, fh+d)
+	}
+	add("w-1", fw-1, fh)
+	add("h-1", fw, fh-1)
+	return
+}
+
+func poolByClass(p *muxPool, cls string) []poolFrame {
+	var out []poolFrame
+	for _, f := range p.good {
+		if f.cls == cls {
+			out = append(out, f)
+		}
+	}
+	return out
+}
+
+// exhaustiveCanvasOps: {AF0, AF all-default, AF duration 40} x {vp8, vp8l, alph+vp8} x {no metadata, EXIF} x
+// {no SetCanvasSize, every canvasRelations entry} with the SetCanvasSize call before the frame and as the LAST call.
+func exhaustiveCanvasOps(p *muxPool) [][]muxOp {
+	var out [][]muxOp
+	for _, cls := range []string{"vp8", "vp8l", "alph+vp8"} {
+		fs := poolByClass(p, cls)
+		if len(fs) == 0 {
+			continue
+		}
+		f := fs[len(fs)/2]
+		for _, g := range fs {
+			if g.w >= 5 && g.w != g.h {
+				f = g
+				break
+			}
+		}
+		_, cs := canvasRelations(f.w, f.h)
+		for fl := 0; fl < 3; fl++ {
+			af := []muxOp{{kind: "AF0", data: f.data}, {kind: "AF", data: f.data}, {kind: "AF", data: f.data, a: 40}}[fl]
+			for meta := 0; meta < 2; meta++ {
+				var pre []muxOp
+				if meta == 1 {
+					pre = append(pre, muxOp{kind: "EX", data: []byte("exif!")})
+				}
+				out = append(out, append(append([]muxOp{}, pre...), af))
+				for _, c := range cs {
+					set := muxOp{kind: "CS", a: c[0], b: c[1]}
+					out = append(out, append(append(append([]muxOp{}, pre...), set), af))
+					out = append(out, append(append(append([]muxOp{}, pre...), af), set))
+				}
+			}
+		}
+	}
+	return out
+}
+
+// genCanvasOps: a random history around ONE frame (any good pool frame; nil / default / ordinary options), 0..2
+// other setters, and 1..3 SetCanvasSize calls drawn from canvasRelations of that frame, the last of them often
+// the last call of the history.
+func genCanvasOps(r *RNG, p *muxPool) []muxOp {
+	f := p.good[r.Intn(len(p.good))]
+	_, cs := canvasRelations(f.w, f.h)
+	setCS := func() muxOp {
+		c := cs[r.Intn(len(cs))]
+		return muxOp{kind: "CS", a: c[0], b: c[1]}
+	}
+	var ops []muxOp
+	other := func() {
+		switch r.Intn(5) {
+		case 0:
+			ops = append(ops, muxOp{kind: "LC", a: r.Intn(3)})
+		case 1:
+			ops = append(ops, muxOp{kind: "BG", bg: uint32(r.Next())})
+		case 2:
+			ops = append(ops, muxOp{kind: []string{"IC", "EX", "XM"}[r.Intn(3)], data: metaBlobs[r.Intn(len(metaBlobs))]})
+		}
+	}
+	if r.Bool() {
+		ops = append(ops, setCS())
+	}
+	other()
+	switch r.Intn(4) {
+	case 0, 1:
+		ops = append(ops, muxOp{kind: "AF0", data: f.data})
+	case 2:
+		ops = append(ops, muxOp{kind: "AF", data: f.data})
+	default:
+		ops = append(ops, muxOp{kind: "AF", data: f.data, a: 30 * r.Intn(3), bl: r.Intn(2), dm: r.Intn(2)})
+	}
+	if r.Chance(1, 3) {
+		ops = append(ops, setCS())
+	}
+	if r.Chance(1, 3) {
+		other()
+	}
+	ops = append(ops, setCS())
+	if r.Chance(1, 4) {
+		other()
+	}
+	return ops
+}
+
+type flavOps struct {
+	ops  []muxOp
+	flav string
+}
+
+// exhaustiveHandoverOps: two frames (equal or different option values; durations in and out of the clamped range)
+// x hand-over flavour {fresh, shared, scribble, sharedptr} x later edit {none, DU on frame 0, DM on frame 1}.
+func exhaustiveHandoverOps(p *muxPool) []flavOps {
+	var out []flavOps
+	fs := poolByClass(p, "vp8")
+	ls := poolByClass(p, "vp8l")
+	if len(fs) == 0 || len(ls) == 0 {
+		return nil
+	}
+	a, b := fs[0].data, ls[0].data
+	type opt struct{ dur, ox, bl, dm int }
+	sets := [][2]opt{{{40, 0, 0, 0}, {40, 0, 0, 0}}, {{40, 0, 0, 0}, {70, 2, 1, 1}}, {{-3, 0, 0, 0}, {1 << 24, 0, 1, 0}}, {{0, 0, 0, 0}, {0, 0, 0, 0}}, {{0x1000000, 2, 0, 1}, {5, 2, 0, 1}}}
+	for _, st := range sets {
+		for _, flav := range []string{"", "shared", "scribble", "sharedptr"} {
+			for edit := 0; edit < 3; edit++ {
+				ops := []muxOp{{kind: "AF", data: a, a: st[0].dur, ox: st[0].ox, bl: st[0].bl, dm: st[0].dm},
+					{kind: "AF", data: b, a: st[1].dur, ox: st[1].ox, bl: st[1].bl, dm: st[1].dm}}
+				switch edit {
+				case 1:
+					ops = append(ops, muxOp{kind: "DU", a: 0, b: 990})
+				case 2:
+					ops = append(ops, muxOp{kind: "DM", a: 1, b: 1 - st[1].dm})
+				}
+				out = append(out, flavOps{ops, flav})
+			}
+		}
+	}
+	return out
+}
+
 // ---------------------------------------------------------------------------------------------
 // property checks on the real implementation
 
@@ -897,6 +1092,7 @@ func checkRoundTrip(s *shadow, file []byte) [][2]string {
 type muxCase struct {
 	ops    []muxOp
 	kind   string
+	flav   string // how the caller hands things over: "" fresh literals | shared | scribble | sharedptr | blobs
 	run    muxRun
 	sh     *shadow
 	domain bool // every frame is a VP8 / VP8L bitstream, bare or ALPH-prefixed
@@ -907,7 +1103,15 @@ type muxCase struct {
 func evalMuxCases(rep *Report, cases []*muxCase) error {
 	var lines []string
 	for _, c := range cases {
-		c.run = runRealMux(c.ops)
+		c.run = runRealMux(c.ops, c.flav)
+		if c.flav == "blobs" {
+			// observation, not a finding: does the file follow changes made to a slice after it was handed over?
+			plain := runRealMux(c.ops, "")
+			if plain.line != c.run.line {
+				plain.blobsNote = "retained"
+			}
+			c.run = plain
+		}
 		c.sh = &shadow{}
 		for _, o := range c.ops {
 			c.sh.apply(o)
@@ -936,11 +1140,22 @@ func evalMuxCases(rep *Report, cases []*muxCase) error {
 	for _, c := range cases {
 		ops := opsString(c.ops)
 		in := map[string]any{"op": "mux", "ops": ops}
+		if c.flav != "" {
+			in["flavour"] = c.flav
+			rep.Count("handover:" + c.flav)
+		}
+		if c.run.blobsNote != "" {
+			rep.Count("handover:blobs:file-follows-later-changes-of-the-slice(undocumented retention)")
+		}
+		if c.run.optsMutated != "" {
+			rep.Add(Finding{Kind: "property", Property: "C14", Signature: "mux-api:addframe-mutates-options",
+				Detail: fmt.Sprintf("(%s, %s hand-over) %s: the caller's FrameOptions must be read, not written", c.kind, map[string]string{"": "fresh"}[c.flav]+c.flav, c.run.optsMutated), Input: in})
+		}
 		muxLean := lean[li]
 		li++
 		if muxLean != c.run.line {
 			rep.Add(Finding{Kind: "correspondence", Signature: "mux-model:assemble",
-				Detail: fmt.Sprintf("(%s) go=%q lean=%q", c.kind, short(c.run.line, 300), short(muxLean, 300)), Input: in})
+				Detail: fmt.Sprintf("(%s%s) go=%q lean=%q", c.kind, map[bool]string{true: ", caller hand-over " + c.flav, false: ""}[c.flav != ""], short(c.run.line, 300), short(muxLean, 300)), Input: in})
 		}
 		if muxLean == "panic" || muxLean == "hang" {
 			rep.Add(Finding{Kind: "correspondence", Signature: "mux-model:" + muxLean, Detail: "model reports " + muxLean, Input: in})
@@ -1023,7 +1238,7 @@ func suiteMux(rep *Report) error {
 	rep.Rule = "random Muxer call sequences (0..8 frames from a pool of real VP8 / VP8L / ALPH+VP8 bitstreams of both payload parities, " +
 		"plus ALPH+VP8L and unparseable frames; options incl. odd/negative/huge offsets and durations, out-of-range modes; " +
 		"setters and retroactive edits in random order with in/out-of-range indices; canvas explicit/implicit/too small/huge; " +
-		"every metadata subset incl. empty non-nil and chunk-like blobs, via Set* and AddChunk) and an exhaustive small product; " +
+		"every metadata subset incl. empty non-nil and chunk-like blobs, via Set* and AddChunk), an exhaustive small product, an exhaustive product {one frame: nil / default / duration options} x {vp8, vp8l, alph+vp8} x {no metadata, EXIF} x explicit canvas DERIVED FROM THE FRAME (equal, one dimension equal and the other +1/+2/+16, both larger, one too small by one; set before the frame and as the last call) plus 400 random one-frame histories with such canvases; caller hand-over flavours on a third of the random histories and exhaustively on two-frame histories: one FrameOptions variable reused for every AddFrame, the struct overwritten after AddFrame returns, the same pointer for two frames followed by SetFrameDuration / SetFrameDisposeMode on one of them (bytes must equal the value-semantics model; mux-api:addframe-mutates-options: AddFrame must not write to the caller's struct), byte slices overwritten after hand-over (counted only: retention of slices is undocumented); " +
 		"each sequence runs on mux.Muxer and on the Lean model (bytes compared), accepted files go through mux.NewDemuxer, " +
 		"container.NewParser, webp.GetFeatures and the Lean RIFF walker; plus a probe of the metadata cap (SetICCProfile with exactly 100 MiB: Assemble must succeed and NewDemuxer / GetChunk / container.NewParser must read the blob back; 100 MiB + 1: a validation error before anything is written); non-trivial = at least one frame was added; distinct = FNV of the op string"
 	n := 4000
@@ -1034,10 +1249,32 @@ func suiteMux(rep *Report) error {
 	for _, ops := range exhaustiveMuxOps(pool) {
 		cases = append(cases, &muxCase{ops: ops, kind: "exhaustive"})
 	}
+	// exhaustive: one still frame x codec x metadata x explicit canvas derived from the frame
+	for _, ops := range exhaustiveCanvasOps(pool) {
+		cases = append(cases, &muxCase{ops: ops, kind: "exhaustive-canvas"})
+	}
+	// exhaustive: two frames x how the caller hands the options over x a later edit of one frame
+	for _, fo := range exhaustiveHandoverOps(pool) {
+		cases = append(cases, &muxCase{ops: fo.ops, kind: "exhaustive-handover", flav: fo.flav})
+	}
 	rep.Exhaustive = true
+	flavs := []string{"shared", "scribble", "sharedptr", "blobs", "shared", "scribble"}
 	for i := 0; i < n; i++ {
 		r := NewRNG(rep.Seed, uint64(9000000+i))
-		cases = append(cases, &muxCase{ops: genMuxOps(r, pool), kind: "random"})
+		c := &muxCase{ops: genMuxOps(r, pool), kind: "random"}
+		if i%3 == 2 { // a third of the histories: the caller reuses what it passed in
+			c.flav = flavs[(i/3)%len(flavs)]
+		}
+		cases = append(cases, c)
+	}
+	// random histories of ONE frame whose canvas setters are derived from that frame
+	nCanvas := 400
+	if rich {
+		nCanvas = 8000
+	}
+	for i := 0; i < nCanvas; i++ {
+		r := NewRNG(rep.Seed, uint64(9800000+i))
+		cases = append(cases, &muxCase{ops: genCanvasOps(r, pool), kind: "random-canvas"})
 	}
 	// evaluate in batches to bound memory
 	const batch = 20000
@@ -1084,6 +1321,9 @@ func replayMux(in map[string]any) int {
 	}
 	rep := NewReport("mux", "replay", 0)
 	c := &muxCase{ops: ops, kind: "replay"}
+	if fl, ok := in["flavour"].(string); ok {
+		c.flav = fl
+	}
 	if err := evalMuxCases(rep, []*muxCase{c}); err != nil {
 		fmt.Println(err)
 		return 2
